@@ -36,13 +36,14 @@ class Quiescence(Monitor):
     def on_step(self, pre, move, sim, res, post, ctx):
         if move[0] != "dispatch" or res.exc is not None:
             return []
-        if res.offers or sim.h["inflight"]:
-            return []
+        if res.offers or sim.h["inflight"] or sim.h["held"]:
+            return []  # a pending action is still outstanding at the provider
         self.stats["quiescent_points"] += 1
         status = post["status"]
         held = bool(sim.h["held"])
         ok = status in RESTING
-        if status == st.PAUSED and not (sim.h["pause_req"] or held or self._paused_task(post)):
+        if status == st.PAUSED and not (sim.h["pause_req"] or held or sim.h.get("pend_pause")
+                                        or self._paused_task(post)):
             ok = False
         if ok:
             return []
@@ -52,6 +53,7 @@ class Quiescence(Monitor):
                 "kind": "stuck",
                 "sig": {
                     "resumed_while_pausing_with_items_in_flight": bool(sim.h.get("resumed_while_pausing_items")),
+                    "with_items_item_went_pending": bool(sim.h.get("item_went_pending")),
                     "rerun_default": ri.get("default"),
                     "rerun_had_failed_terminal_task": ri.get("failed_terminal_task"),
                     "rerun_after_fail_command": ri.get("fail_command_terminal"),
